@@ -52,8 +52,8 @@ theorem sum_zero_terms (a : ℕ → ℝ) (n : ℕ) (h : ∀ i, i < n → 0 ≤ a
 
 /-- numpy.log / numpy.exp / numpy.log1p / numpy.expm1 as real functions (assumption A1: floats are reals) -/
 theorem exp_log_inverse (x : ℝ) :
-    Real.log (Real.exp x) = x ∧ 0 < Real.exp x ∧ (0 < x → Real.exp (Real.log x) = x) :=
-  ⟨Real.log_exp x, Real.exp_pos x, fun h => Real.exp_log h⟩
+    Real.log (Real.exp x) = x ∧ 0 < Real.exp x ∧ (0 < x → Real.exp (Real.log x) = x) ∧ (1 ≤ x → 0 ≤ Real.log x) :=
+  ⟨Real.log_exp x, Real.exp_pos x, fun h => Real.exp_log h, fun h => Real.log_nonneg h⟩
 
 theorem sqrt_unit (x : ℝ) (_h0 : 0 ≤ x) :
     0 ≤ Real.sqrt x ∧ (x ≤ 1 → Real.sqrt x ≤ 1) ∧ (x = 0 → Real.sqrt x = 0) := by
